@@ -4,4 +4,5 @@ Extraction Language OCaml.
 Extraction "c05_model" force_types next_pow2 tinit tstep sinit sstep rinit rstep count_allocators
   t_cap t_alloc t_cached t_free t_ptrs t_out t_dups t_badnull t_race t_uncov t_A t_F
   s_alloc s_cached s_free s_out s_dups s_badnull
-  r_cursor r_inuse r_out r_dups.
+  r_cursor r_inuse r_out r_dups
+  ts_init_cap sowr_init_cap ring_init_cap head_ts head_sowr head_ring ts_block_size sowr_block_size ring_block_size slab_bytes.
